@@ -18,6 +18,10 @@ CHECKS["C05"] = dict(level="exploration", ref="DESIGN.md §5 C05",
    technique="generated source histories + merge + generated follow-up patches; differential merged-vs-overlay-vs-reference-tree, byte digests of source files, user-block field oracle",
    text="Generated search: every case builds a multi-container source, merges it while open, and checks the merged container (view, identity fields, manifest) and that follow-up patches made on the source apply to the merged container with the same view. Bounded by history length and <=3 follow-ups; sampling.",
    note=TB)
+CHECKS["C02"] = dict(level="exploration", ref="DESIGN.md §5 C02",
+   technique="generated histories of data and record-level operations (commit, discard, reopen in r/r+/a, merge, second handle, older-prefix open, refused calls); invariant after every step: sha256/size of every committed container and manifest unchanged + directory-listing whitelist; commit snapshots re-opened later against the reference tree",
+   text="Generated search with an invariant checked after every single operation (successful or refused): byte digests of everything committed so far and no unexpected files; every commit's file set is later copied out and must open read-only showing the state recorded at that commit. Bounded by history length; sampling.",
+   note=TB + "; what counts as committed is decided by the harness from its own API calls")
 NOT_YET = {}
 def main():
     props = [json.loads(l) for l in open(os.path.join(HERE, "properties.jsonl"))]
